@@ -226,7 +226,8 @@ CLAIMED = {
                  'sets event.ignored, and every package handler that is not spy-wrapped and can answer HANDLED records a hook tuple.',
         'note': 'Assumes user handlers are spy-wrapped when the chart is instrumented (spy_on_start switches instrumentation off otherwise).',
         'technique': SA + 'path counting, guard analysis, outcome-completeness rule over dispatch and every top() override; the start state of a record is reflected from state.fun (the cursor is stale after a step that raised); shared mechanism rules: RING.owners (step buffers written/cleared only on the chart thread), BOOK.outputs-only (state_name/state_fn read by nothing); round 7: HOLDER.per-chart (event/state/temp holders stay per-chart Attribute objects)'
-                     + '; trace() is a pure rendering of the live trace deque (effects + iteration source)',
+                     + '; trace() is a pure rendering of the live trace deque (effects + iteration source)'
+                     + '; round 8: TUPLES.offer-flag (finite evaluation of the spy wrapper per handler answer, its tuples handed to the trace\'s own hook-scan helper: hooked iff HANDLED)',
     },
     'C21': {
         'level': 'Decides clock-independence: no comparison of clock-derived values controls a live callback (field-based taint), newness of a trace '
